@@ -9,6 +9,7 @@ use serde_json::{json, Map, Value};
 use std::collections::{BTreeMap, BTreeSet};
 use std::time::Instant;
 
+pub mod cmodel;
 pub mod enumerate;
 pub mod laws;
 
